@@ -8,6 +8,7 @@ replace github.com/spf13/pflag => github.com/fredbi/pflag v1.0.6-0.2020110615442
 
 require (
 	github.com/anishathalye/porcupine v1.3.0
+	github.com/jacobsa/fuse v0.0.0-20220531202254-21122235c77a
 	github.com/oneconcern/datamon v0.0.0-00010101000000-000000000000
 	github.com/segmentio/ksuid v1.0.4
 	github.com/spf13/afero v1.9.3
